@@ -33,6 +33,12 @@ def gen_cases(tier, seed):
             base = I.cyc_node_base(rng, wt=wt, exact=exact, max_edges=6) if node else I.cyc_edge_base(rng, wt=wt, exact=exact, max_edges=7, maxw=2, maxlen=6)
         else:
             base = I.dag_node_base(rng, wt=wt, exact=exact, max_edges=7) if node else I.dag_edge_base(rng, wt=wt, exact=exact, max_edges=8)
+        bundle = None
+        if cyc and not node and rng.random() < 0.12:
+            # a bundle of parallel inter-SCC edges, one of them ignored, k chosen by the model (width with ignored edges)
+            base = I.cyc_edge_base(rng, wt=wt, exact=exact, max_edges=11, maxw=2, maxlen=8, shape=gen.cyc_bundle)
+            comp = ref.scc_map(gen.build(I.spec_of(base)))
+            bundle = [e for e in base["edges"] if comp[e[0]] != comp[e[1]] and sum(1 for f in base["edges"] if (comp[f[0]], comp[f[1]]) == (comp[e[0]], comp[e[1]])) >= 3]
         if wt == "float" and rng.random() < 0.3:
             base["flow"] = {e: f / 4 for e, f in base["flow"].items()}      # values < 1
         if rng.random() < 0.2:
@@ -42,7 +48,9 @@ def gen_cases(tier, seed):
              "superset": None, "plr": None}
         if rng.random() < 0.25 and len(elems) >= 2:
             c["ignore"] = gen.jl(I.pick_ignore(rng, base, 0.3))
-        if rng.random() < 0.25:
+        if bundle:
+            c["ignore"] = gen.jl(rng.sample(bundle, rng.randint(1, 2))); c["knone"] = rng.random() < 0.8
+        if rng.random() < 0.25 and not bundle:
             c["scale"] = [[gen.jl(e) if isinstance(e, tuple) else e, rng.choice([0, 0.25, 0.5, 1])] for e in rng.sample(elems, rng.randint(1, max(1, len(elems) // 2)))]
         if rng.random() < 0.2 and len(base["nodes"]) >= 3:
             inner = I.inner_nodes(base) or base["nodes"]
